@@ -1,8 +1,6 @@
 package rules
 
 import (
-	"fmt"
-	"os"
 	"go/ast"
 	"go/types"
 
@@ -23,6 +21,8 @@ func init() {
 			"enumerated refusal conditions (NO-EXTRA-REFUSAL). Values of the per-address conjunction over slices beyond the sticky-false structure.",
 		Run: runC10,
 		Mutants: []Mutant{
+			{Name: "exclusion-label-needs-value-true", File: "internal/k8s/nodes/nodes.go",
+				Old: "\tif _, ok := n.Labels[corev1.LabelNodeExcludeBalancers]; ok {", New: "\tif v, ok := n.Labels[corev1.LabelNodeExcludeBalancers]; ok && v == \"true\" {", Expect: "NODE-EXCLUDED"},
 			{Name: "unavailable-guard-dropped", File: "speaker/bgp_controller.go",
 				Old: "\tif k8snodes.IsNetworkUnavailable(nodes[c.myNode]) {\n\t\tlevel.Warn(l).Log(\"event\", \"skipping should announce bgp\"", New: "\tif k8snodes.IsNetworkUnavailable(nodes[c.myNode]) && !c.ignoreExcludeLB {\n\t\tlevel.Warn(l).Log(\"event\", \"skipping should announce bgp\"", Expect: "GUARDS"},
 			{Name: "true-overwrites-false", File: "speaker/bgp_controller.go",
@@ -46,6 +46,7 @@ func init() {
 }
 
 func runC10(p *chk.Prog, r *chk.Report) {
+	nodeExclusionRule(p, r)
 	c10Guards(p, r)
 	c10Sticky(p, r)
 	canServeRule(p, r)
@@ -290,9 +291,6 @@ func c10Sticky(p *chk.Prog, r *chk.Report) {
 			nt++
 			rs, _ := f.LoopOf(rt.Node).(*ast.RangeStmt)
 			ok := rs != nil && f.Denotes(rs.X, readyMap) && g.Dominated(rt, chk.GBool(true, rangeVal(f, rs)))
-			if os.Getenv("MLB_DEBUG_RULE") != "" && rs != nil {
-				fmt.Fprintln(os.Stderr, "DBG sticky", rs != nil, f.Denotes(rs.X, readyMap), f.Src(f.Resolve(rs.X)), g.Dominated(rt, chk.GBool(true, rangeVal(f, rs))))
-			}
 			x.Check("hasHealthyEndpoint:true-result-needs-ready-address", rt.Pos(), ok, "", "true is returned without an address that is still marked ready")
 		} else if !f.IsConstBool(res[0], false) {
 			x.Fail("hasHealthyEndpoint:return-shape", rt.Pos(), "a return that is not a boolean constant")
